@@ -42,8 +42,10 @@ CLAIMED = {
          "in-image adjacencies of the property (through the re-translated fix_offset in constant mode); the label map is 0 "
          "exactly on zeros; two non-zero pixels share a label iff they are related by the equivalence closure of those "
          "adjacencies (quick-find invariant); labels are 1..n in scan order of first appearance and the count is n (shared "
-         "renumbering lemmas). union-find is modelled by its specification; model and an independent evaluation of the "
-         "definition are compared with the fresh build on generated and (thorough) exhaustive inputs",
+         "renumbering lemmas); the union-find structure as written in _labeled.cpp (parent array, recursive find with path "
+         "compression, join by re-pointing a root, compression pass) is a second executable model proved to return the same "
+         "labels and count for every input (forest invariant, fuel shown sufficient). Both models and an independent evaluation "
+         "of the definition are compared with the fresh build on generated and (thorough) exhaustive inputs",
          "Rocq proof + translator + differential correspondence"),
  "C14": ("proof", "Coq theorems: locmax/locmin mark a pixel iff no non-centre member of the neighbourhood (edge-replicated) is strictly "
          "better (any dimension/neighbourhood); regional extrema are a subset of local ones (the flood only clears marks); hitmiss "
